@@ -167,8 +167,8 @@ def probe_any(cfg: dict, seed: int):
 
 
 def perturb(model, seed: int, lr: float):
-    """one optimiser update with synthetic gradients: every trainable leaf moves; the invariant filter bank
-    gets a zero gradient, as it does in real training (stop_gradient)."""
+    """one optimiser update with synthetic gradients: every trainable leaf moves; the invariant filter bank is
+    only rescaled by a common factor, as it is in real training with weight decay (its gradient is zero)."""
     params = eqx.filter(model, eqx.is_inexact_array)
     leaves, treedef = jax.tree_util.tree_flatten_with_path(params)
     rs = np.random.RandomState(seed % (2**31 - 1))
@@ -176,7 +176,7 @@ def perturb(model, seed: int, lr: float):
     for path, leaf in leaves:
         name = jax.tree_util.keystr(path)
         if "invariant_filters" in name:
-            grads.append(jnp.zeros_like(leaf))
+            grads.append(leaf * (0.03 / lr))  # what decoupled weight decay does: a common rescaling (x0.97) of the bank
         else:
             grads.append(jnp.asarray(rs.normal(size=leaf.shape).astype(np.float32)))
     grads = jax.tree_util.tree_unflatten(jax.tree_util.tree_structure(params), grads)
@@ -265,6 +265,41 @@ def execute(plan: dict, ctx: dict) -> dict:
         bump("unreachable_types_configs")
     state = "fresh"
 
+    # value stability across identity-like events is judged on three probes at once: a real ordering/position bug
+    # changes the output on every input, while float32 rounding amplified by a discontinuous or ill-conditioned layer
+    # (sign of a near-zero pseudoscalar in the vector-neuron nonlinearity, whitening of a nearly constant field)
+    # shows on isolated inputs only.
+    extra_probes = [probe_any(cfg, plan["x_seed"] + 17 * (i + 1)) for i in range(2)] if lifecycle else []
+    last = {"outs": None}
+
+    def outputs_on_probes(m, first_out, transform=None):
+        outs = [first_out]
+        for xp in extra_probes:
+            try:
+                outs.append(zoo.call_model(m, transform(xp) if transform else xp))
+            except Exception:
+                return None
+        return [{t: np.asarray(v) for t, v in o.items()} for o in outs]
+
+    def values_stable(outs, where):
+        prev = last["outs"]
+        if prev is None or outs is None:
+            return
+        worst = None
+        for o, pv in zip(outs, prev):
+            d_probe = 0.0
+            for t in pv:
+                if t not in o or o[t].shape != pv[t].shape or not (np.all(np.isfinite(o[t])) and np.all(np.isfinite(pv[t]))):
+                    return
+                scale = max(1.0, float(np.max(np.abs(pv[t]))))
+                d_probe = max(d_probe, float(np.max(np.abs(o[t] - pv[t]))) / scale)
+            if d_probe <= 1e-3:
+                if d_probe > 0:
+                    bump("identity_event_rounding_diffs")
+                return  # at least one probe is unchanged: not a systematic change
+            worst = d_probe if worst is None else min(worst, d_probe)
+        viol("C20", "values_change_across_identity_event", {"after": where, "min_relative_diff_over_3_probes": worst, "history": kinds[:]}, f"{site0}/values_change/{where.split(':')[0]}")
+
     def check_conformance(m, xin, where, ordered=True):
         nonlocal evals
         try:
@@ -277,6 +312,17 @@ def execute(plan: dict, ctx: dict) -> dict:
         err = conform(out, cfg, expected, xin, ordered)
         if err is not None:
             viol("C20", err["what"], {"after": where, "history": kinds[:], **err}, f"{site0}/{err['what']}/{where}")
+        else:
+            kind0 = where.split(":")[0]
+            tr = (lambda xx: _transport_input(xx, where.split(":")[1])) if kind0 == "transported_input" else None
+            outs = outputs_on_probes(m, out, tr)
+            # (a transported *input* is not an identity event for values: a conventional model flattens its input's
+            # types into channels in storage order, so a re-ordered input is a different channel layout; only the
+            # signature is checked for it)
+            if kind0 in ("tree_map", "inference", "save_load"):
+                values_stable(outs, where)
+            if kind0 != "transported_input":
+                last["outs"] = outs
         return out
 
     if lifecycle:
@@ -310,6 +356,14 @@ def execute(plan: dict, ctx: dict) -> dict:
                         err = conform(out, cfg, expected, x, ordered=False)
                         if err is not None:
                             viol("C20", err["what"], {"after": "jit_call", **err}, f"{site0}/{err['what']}/jit_call")
+                        else:
+                            jf = eqx.filter_jit(lambda m, xx: zoo.call_model(m, xx))
+                            try:
+                                values_stable([{t: np.asarray(v) for t, v in o.items()} for o in [out] + [jf(model, xp) for xp in extra_probes]], "jit_call")
+                            except Exception:
+                                pass
+                        if err is not None:
+                            pass
                         elif [(tuple(t), c) for t, c in out.get_signature()] != [(tuple(t), c) for t, c in expected]:
                             bump("jit_return_sorted_order_differs")
                 elif kind == "transported_input":
